@@ -73,7 +73,9 @@ def rlp_receipt(maxlen=2000):
 
 def byte_string_1_33():
     return st.one_of(st.binary(min_size=1, max_size=33), st.binary(min_size=32, max_size=33),
-                     st.sampled_from([b"\x00", b"\x01", b"\x00" + b"\xff" * 32]))
+                     st.sampled_from([b"\x00", b"\x01", b"\x00" + b"\xff" * 32]),
+                     # ending like a status word
+                     st.binary(min_size=30, max_size=30).map(lambda b: b + b"\x90\x00"))
 
 
 def textlike_head32():
